@@ -3,7 +3,7 @@ import ast
 
 from ..astx import (calls_in, dotted, norm, src, iter_nodes, assigned_targets, assigned_names,
                     const_value, is_const, parent_chain)
-from ..lib import (cfg_nodes_with_call, node_calls, returns, raises, stmt_assigns_attr, callee_last,
+from ..lib import (call_arg, relation, truth, other, cmp_views, core, holds_region, conditions, eval_conditions, relation_tests, atom_key, expand_condition, mode_mismatch_conditions, cfg_nodes_with_call, node_calls, returns, raises, stmt_assigns_attr, callee_last,
                    is_name, node_roots, guard_region, compare_parts, find_test_nodes)
 from ..linear import ctext, lin, Lin, slice_bounds
 from ..loader import AnalysisError
@@ -303,7 +303,9 @@ def region_skeleton(f):
             tg, vl = a.targets[0], a.value
             if isinstance(vl, ast.Tuple) and len(tg.elts) == 2 and len(vl.elts) == 2 and \
                     norm(tg.elts[0]) == norm(vl.elts[1]) and norm(tg.elts[1]) == norm(vl.elts[0]):
-                swaps.append((norm(n.test), (norm(tg.elts[0]), norm(tg.elts[1]))))
+                # the test, read as `<greater> > <smaller>` whichever way round it is written; None if it is not a strict ordering test
+                gt = [(norm(a_), norm(b_)) for a_, op, b_ in cmp_views(n.test) if op is ast.Gt]
+                swaps.append((gt[0] if gt else None, (norm(tg.elts[0]), norm(tg.elts[1]))))
     return cons, swaps
 
 
@@ -314,8 +316,9 @@ def check_regions(c, scr):
         p = f.params[1:5]
         want = [(p[0], (p[0], '1', 'self.rows')), (p[2], (p[2], '1', 'self.rows')), (p[1], (p[1], '1', 'self.cols')), (p[3], (p[3], '1', 'self.cols'))]
         c.check(sorted(cons) == sorted(want), f, None, '%s clamps rows to [1, rows] and columns to [1, cols]' % f.name, witness=str(cons), kind='alg', tag='clamps:' + f.name)
-        wswap = [('%s > %s' % (p[0], p[2]), (p[0], p[2])), ('%s > %s' % (p[1], p[3]), (p[1], p[3]))]
-        c.check(swaps == wswap, f, None, '%s normalises swapped corners (row pair and column pair separately)' % f.name, witness=str(swaps), kind='alg', tag='swaps:' + f.name)
+        wswap = [((p[0], p[2]), (p[0], p[2])), ((p[1], p[3]), (p[1], p[3]))]
+        okw = len(swaps) == 2 and all(s_[0] == w_[0] and set(s_[1]) == set(w_[1]) for s_, w_ in zip(swaps, wswap))
+        c.check(okw, f, None, '%s normalises swapped corners (row pair and column pair separately)' % f.name, witness=str(swaps), kind='alg', tag='swaps:' + f.name)
         loops = [n for n in iter_nodes(f.node) if isinstance(n, ast.For)]
         ok = len(loops) == 2 and norm(loops[0].iter) == 'range(%s, %s + 1)' % (p[0], p[2]) and norm(loops[1].iter) == 'range(%s, %s + 1)' % (p[1], p[3])
         c.check(ok, f, loops[0] if loops else None, '%s visits rows rs..re and columns cs..ce inclusive' % f.name, witness=str([norm(l.iter) for l in loops]), kind='alg', tag='loops:' + f.name)
